@@ -25,7 +25,7 @@ FAMILIES = ["gauss_cov_scalar", "gauss_cov_vec", "gauss_cov_full", "gauss_prec_f
             "gmrf_neumann", "gmrf2d", "normal", "gamma", "invgamma", "beta", "laplace", "lognormal",
             "uniform", "cauchy", "mhn", "gauss_sqrtprec_lower", "gauss_sqrtprec_full", "gauss_sqrtcov_upper",
             "gauss_sqrtcov_full", "gauss_prec_vec", "gauss_geom_cont1d", "gauss_geom_image2d", "normal_geom_cont1d",
-            "gamma_geom_discrete", "gauss_scalar_mean_geom", "gauss_scalar_all", "normal_scalar_geom", "gamma_scalar_geom",
+            "gamma_geom_discrete", "user_defined_buffer", "gauss_scalar_mean_geom", "gauss_scalar_all", "normal_scalar_geom", "gamma_scalar_geom",
             "laplace_scalar_geom", "uniform_scalar_geom", "gauss_sqrtcov_scalar", "gauss_sqrtcov_vec", "gauss_sqrtcov_diagmat",
             "gauss_sqrtprec_vec", "gauss_sqrtprec_diagmat", "gauss_sqrtprec_scalar", "gauss_cov_diagmat", "gauss_prec_scalar",
             "gauss_sparse_cov_tridiag", "gauss_sparse_prec_tridiag", "gauss_sparse_sqrtprec_diag", "gmrf_order0", "gmrf_order2", "gmrf2d_order0", "gmrf2d_order2", "gauss_sqrtprec_full_forder", "gauss_sqrtprec_sparse_bidiag", "gauss_mean_cuqiarray", "gmrf_mean_cuqiarray",
@@ -101,6 +101,17 @@ def build_dist(rec):
     if fam == "gauss_sparse_sqrtprec_diag":
         n2 = max(n, 2)
         return D.Gaussian(np.random.RandomState(z).randn(n2), sqrtprec=sps.diags(np.linspace(0.5, 1.5, n2)))
+    if fam == "user_defined_buffer":
+        # a user-supplied sampler that refreshes and returns ONE pre-allocated buffer (legal): every draw handed out must
+        # still be its own value afterwards
+        buf = np.zeros(max(n, 2))
+        st_ = np.random.RandomState(z)
+
+        def sample_func():
+            buf[:] = st_.randn(buf.size)
+            return buf
+        return D.UserDefinedDistribution(dim=buf.size, logpdf_func=lambda x: float(-0.5 * np.sum(np.asarray(x) ** 2)),
+                                         sample_func=sample_func)
     if fam == "gauss_scalar_mean_geom":
         return D.Gaussian(0.5, np.linspace(0.5, 2.0, n), geometry=n)        # scalar mean broadcast over the geometry
     if fam == "gauss_scalar_all":
@@ -162,7 +173,8 @@ def build_dist(rec):
     raise ValueError(fam)
 
 
-SETTABLE = {"gauss_cov_scalar": "cov", "gauss_cov_vec": "cov", "normal": "std", "gamma": "rate", "laplace": "scale"}
+SETTABLE = {"gauss_cov_scalar": "cov", "gauss_cov_vec": "cov", "normal": "std", "gamma": "rate", "laplace": "scale",
+            "lognormal": "mean"}
 
 
 def spec_of(rec):
@@ -179,6 +191,8 @@ def spec_of(rec):
         return ["Gamma", {"shape": np.linspace(1.0, 3.0, n), "rate": np.linspace(0.5, 2.0, n)}]
     if fam == "laplace":
         return ["Laplace", {"location": mean, "scale": np.linspace(0.5, 2.0, n)}]
+    if fam == "lognormal":
+        return ["Lognormal", {"mean": mean * 0.3, "cov": 0.4 * np.eye(n)}]
     return None
 
 
@@ -244,7 +258,11 @@ class StreamsRun:
     def a_op(self, op, dists, g, legacy_cache):
         """Execute one A operation with generator g; returns ndarray output."""
         if op["op"] == "a_sample":
-            return out_array(dists[op["d"]].sample(op["N"], rng=g)), None
+            obj = dists[op["d"]].sample(op["N"], rng=g)
+            arr = out_array(obj)
+            if getattr(self, "keep_handed_out", None) is not None:
+                self.keep_handed_out.append((obj, arr.copy(), self.sc["dists"][op["d"]]["fam"]))
+            return arr, None
         if op["op"] == "a_legacy":
             import cuqi.sampler as LS
             key = op["kind"]
@@ -296,6 +314,7 @@ class StreamsRun:
         G0 = np.random.get_state()
         bs = self.b_make()
         outs = []
+        self.keep_handed_out = []
         a_count = b_count = 0
         for i, op in enumerate(self.case["ops"]):
             k = op["op"]
@@ -324,6 +343,9 @@ class StreamsRun:
                 ctx.log("a_out", core.digest(out))
                 if core.SimRandom.state_digest() != Gd:
                     ctx.violate(PROP, "global_stream_touched_by_rng_draw", self.sig(op=k, fam=self._fam(op)), N=op.get("N"))
+                if k == "a_sample" and self._fam(op) == "user_defined_buffer":
+                    outs.pop()                # its sampler owns its own stream: only the hand-over oracle applies
+                    continue
                 if k == "a_sample":
                     self._shape_oracle(op, dists[op["d"]], out_obj=None, arr=out)
                     if rs_digest(g) == gd and op["N"] > 0:
@@ -344,6 +366,8 @@ class StreamsRun:
                 if k == "b_sample" and (self.touched.get(op["d"]) or self.conditional.get(op["d"])):
                     continue
                 out = self.b_op(op, dists, bs)
+                if self._fam(op) == "user_defined_buffer":
+                    continue                  # (draws from its private stream; it only serves to refresh the buffer)
                 outs.append((i, "B", out, None))
                 ctx.log("b_out", core.digest(out))
                 if rs_digest(g) != gd:
@@ -358,6 +382,12 @@ class StreamsRun:
             ctx.nontrivial = True
             ctx.fault("interleave", min(a_count, b_count))
         ctx.count("transitions", len(outs))
+        # ---- every draw handed out earlier is still what it was
+        handed, self.keep_handed_out = self.keep_handed_out, None
+        for (obj, cp, fam_) in handed:
+            if not np.array_equal(out_array(obj), cp, equal_nan=True):
+                ctx.violate(PROP, "draw_altered_after_handover", self.sig(fam=fam_))
+                break
         # ---- solo runs: A alone from g0, B alone from G0
         g2 = np.random.RandomState(0)
         g2.set_state(g0)
@@ -551,8 +581,11 @@ class StreamsRun:
         spec = self.specs[d]
         if op["op"] == "setparam":
             rs = np.random.RandomState(op["pick"])
-            new = float(rs.uniform(0.3, 3.0)) if (op["scalar"] or attr == "cov" and fam == "gauss_cov_scalar") \
-                else rs.uniform(0.3, 3.0, n)
+            if fam == "lognormal":
+                new = rs.uniform(-0.5, 0.5, n)
+            else:
+                new = float(rs.uniform(0.3, 3.0)) if (op["scalar"] or attr == "cov" and fam == "gauss_cov_scalar") \
+                    else rs.uniform(0.3, 3.0, n)
             setattr(dists[d], attr, new)
             spec[1][attr] = new
             self.touched[d] = True
@@ -561,6 +594,8 @@ class StreamsRun:
         else:
             # turn the (already used) object into a conditional one by assigning a callable; it must then refuse to
             # sample, consume nothing, and behave like a freshly built conditional distribution once the value is given
+            if fam == "lognormal":
+                return                    # (its covariance must stay a matrix; only re-assignment is exercised)
             vec = fam != "gauss_cov_scalar"
             f = named_callable("s", n, vec)
             setattr(dists[d], attr, f)
